@@ -32,11 +32,13 @@ fn fake_node(r: &mut Rng, claim_pos: Option<[u8; 32]>) -> DHTNode {
 
 pub async fn spawn_liars(sc: &Value, net: &Arc<SimNetwork>, nodes: &[SimNode]) -> Vec<Liar> {
     let mut out = Vec::new();
+    let flood_counter = Arc::new(AtomicU64::new(0));
+    let hidden = sc["hidden"].as_u64().unwrap_or(0) as usize;
     for (li, spec) in sc["liars"].as_array().cloned().unwrap_or_default().iter().enumerate() {
         if nodes.is_empty() { break; }
         let tid_bytes = Rng::new(spec["tid_salt"].as_u64().unwrap_or(li as u64) ^ 0x11a2).arr32();
         let tid = hex::encode(tid_bytes);
-        let addr: SocketAddr = SocketAddr::from(([10, 200, li as u8, 1], 7000 + li as u16));
+        let addr: SocketAddr = SocketAddr::from(([10 + (li / 4) as u8 * 7, 200, li as u8, 1], 7000 + li as u16));
         let (idx, mut inbox) = net.add_stub(&tid, addr);
         let script = spec["script"].as_str().unwrap_or("unknown_ids").to_string();
         let knows = (spec["knows"].as_u64().unwrap_or(0) as usize) % nodes.len();
@@ -44,6 +46,7 @@ pub async fn spawn_liars(sc: &Value, net: &Arc<SimNetwork>, nodes: &[SimNode]) -
         let _ = nodes[knows].manager.connect_to_peer(&addr.to_string()).await;
         let replies = Arc::new(AtomicU64::new(0));
         let r2 = replies.clone();
+        let flood2 = flood_counter.clone();
         let net2 = net.clone();
         let tid2 = tid.clone();
         let real: Vec<(String, String, String)> = nodes.iter().map(|n| (n.tid.clone(), n.app_id.clone(), n.addr.to_string())).collect();
@@ -62,6 +65,24 @@ pub async fn spawn_liars(sc: &Value, net: &Arc<SimNetwork>, nodes: &[SimNode]) -
                 let mut message_id = msg.message_id.clone();
                 let result = match script.as_str() {
                     "silent" => continue,
+                    // flood: 20 made-up contacts on the far side of the key space; from the 11th flood reply of
+                    // the run on, the reply also names one real, responsive node (the scenario's "hidden" node)
+                    "flood" => {
+                        let nth = flood2.fetch_add(1, Ordering::Relaxed);
+                        let mut ns: Vec<DHTNode> = Vec::new();
+                        while ns.len() < 19 {
+                            let f = fake_node(&mut rng, None);
+                            let p = saorsa_core::dht::derive_dht_key_from_peer_id(&f.peer_id);
+                            if (p[0] ^ key[0]) & 0x80 != 0 { ns.push(f); }
+                        }
+                        if nth >= 10 {
+                            let (t, _a, ad) = real[hidden.min(real.len() - 1)].clone();
+                            ns.insert(9, DHTNode { peer_id: t, address: ad, distance: None, reliability: 1.0, cached_dht_key: None });
+                        } else {
+                            ns.push(fake_node(&mut rng, None));
+                        }
+                        DhtNetworkResult::NodesFound { key, nodes: ns }
+                    }
                     "unknown_ids" => DhtNetworkResult::NodesFound { key, nodes: (0..8).map(|_| fake_node(&mut rng, None)).collect() },
                     "target_equal" => DhtNetworkResult::NodesFound { key, nodes: (0..8).map(|_| fake_node(&mut rng, Some(key))).collect() },
                     "overlong" => DhtNetworkResult::NodesFound { key, nodes: (0..200).map(|_| fake_node(&mut rng, None)).collect() },
